@@ -25,7 +25,7 @@ RULE = ('one call of a separation helper per case on real Stream / MultiStream o
         'value the numeric stage returned is recorded and handed to the model, with many cases having every K on one side of 1 '
         'and forced top/bottom chemicals; phase_fraction is also called directly with 1-3 chemicals and forced fractions. '
         'mix_and_split / mix_and_split_with_moisture_content also get a bottom outlet on another property package (superset, '
-        'reordered superset, subset) that is usually reused (already holds flows) and often receives nothing. State kept between calls: the lle / vle multi_stream argument is usually one that still holds flows of an earlier call, and the equilibrium stub is in most cases relative (it splits whatever material the working stream holds, i.e. a conserving equilibrium; the rows it saw are compared with the rows of the model); phase_split feeds carry a history (per-phase views fetched, an earlier split, flows rewritten, phase set changed; half of the histories are view/split -> phases -> set) executed on the real MultiStream and on the cached-view state machine. mix_and_split also gets a MultiStream top outlet with inlets in the phases L, g, l, s (owned by the top, other-case twin of an owned phase, or new) on the same or another property package. A few calls per run use the REAL flash on Water / Ethanol (V, and x / y specifications within 1e-6 of the feed composition): the wrapper must hand the rows through and the flash must honour its contract (rows add up to the feed, none negative). Compared: every outlet / '
+        'reordered superset, subset) that is usually reused (already holds flows) and often receives nothing. State kept between calls: the lle / vle multi_stream argument is usually one that still holds flows of an earlier call, and the equilibrium stub is in most cases relative (it splits whatever material the working stream holds, i.e. a conserving equilibrium; the rows it saw are compared with the rows of the model); phase_split feeds carry a history (per-phase views fetched, an earlier split, flows rewritten, phase set changed; half of the histories are view/split -> phases -> set) executed on the real MultiStream and on the cached-view state machine. mix_and_split also gets a MultiStream top outlet with inlets in the phases L, g, l, s (owned by the top, other-case twin of an owned phase, or new) on the same or another property package. mix_hist: histories of 1-3 mix_and_split calls on the same outlet objects with inlets of the receiving or other packages whose flows are entered chemical by chemical in chosen orders (the same chemicals in different orders recur within and across calls), run against the model of indexer.index_overlap with its per-package index cache (cleared at the start of each case). phase_split also gets outlets on other packages and feed rows entered in chosen orders. A few calls per run use the REAL flash on Water / Ethanol (V, and x / y specifications within 1e-6 of the feed composition): the wrapper must hand the rows through and the flash must honour its contract (rows add up to the feed, none negative). Compared: every outlet / '
         'mutated inlet flow per phase (1e-9 relative), returned phase fraction, exception class, number of infeasibility '
         'warnings, phases of the outlets. non-trivial = the call returned normally and moved material, or took an '
         'infeasibility / clipping branch; distinct = distinct case hash')
@@ -151,6 +151,9 @@ def gen_mix_split(rng):
         c['top_phases'] = rng.choice(['gl', 'gl', 'ls', 'Ll', 'gls', 'Lg', 'gs'])
         c['in_phases'] = [rng.choice('llLLgs') for _ in range(k)]
         c['in_pkgs'] = [rng.choice([None, None, 'sup', 'perm']) for _ in range(k)]
+        if rng.random() < 0.5 and k > 1:
+            c['ins'][1] = [fl(F(x) * rng.choice([F(1), F(2), F(1, 2)])) for x in c['ins'][0]]      # same chemicals as inlet 0
+        c['in_orders'] = [shuffled_names(rng, v) if rng.random() < 0.8 else None for v in c['ins']]
         c['alias'] = None
         c['top0'] = {p: (flows(rng) if rng.random() < 0.4 else [0.] * N) for p in c['top_phases']}
         return c
@@ -450,8 +453,16 @@ def gen_phase_split(rng):
                 cur = new; hist.append(['phases', ''.join(sorted(cur))])
         final = ''.join(sorted(cur))
     nout = len(final) if rng.random() < 0.8 else rng.choice([1, 2, 3, 4, 5])
-    return {'fn': 'phase_split', 'phases': phases, 'rows': rows, 'multi': multi, 'hist': hist,
-            'outs0': [maybe_empty(rng) for _ in range(nout)]}
+    c = {'fn': 'phase_split', 'phases': phases, 'rows': rows, 'multi': multi, 'hist': hist,
+         'outs0': [maybe_empty(rng) for _ in range(nout)]}
+    if multi and rng.random() < 0.5:
+        # outlets defined on other property packages; the rows of the feed were entered chemical by chemical; two phases
+        # often hold the same chemicals
+        if len(rows) > 1 and rng.random() < 0.6:
+            rows[1] = [fl(F(x) * rng.choice([F(2), F(1, 2), F(3)])) for x in rows[0]]
+        c['out_pkgs'] = [rng.choice([None, 'sup', 'perm', 'perm']) for _ in range(nout)]
+        c['row_orders'] = [shuffled_names(rng, r) if rng.random() < 0.8 else None for r in rows]
+    return c
 
 def gen_splits(rng):
     a = flows(rng)
@@ -561,7 +572,32 @@ def gen_vle_real(rng):
         spec = {kind: [z + d, 1 - z - d], 'P': 101325.}
     return {'fn': 'vle_real', 'flows': [fw, fe], 'spec': spec, 'ms': rng.random() < 0.5}
 
-GENS = [('binary', gen_binary, 4), ('rr', gen_rr, 4), ('clip', gen_clip, 6), ('mix_split', gen_mix_split, 8), ('moisture', gen_moisture, 12),
+GLOBAL_IDS = IDS + ['X_']          # global identity of a chemical = its position here
+
+def gen_mix_hist(rng):
+    """a history of mix_and_split calls on the same outlet objects; inlets on the receiving package or on others, their
+    flows entered one by one in a chosen order (the iteration order of the sparse dict, which keys the receiver's
+    index cache); several inlets carry the same set of chemicals in different orders"""
+    calls = []
+    base = rng.sample(range(N), rng.randint(2, 4))          # the chemicals that recur
+    for _ in range(rng.randint(1, 3)):
+        ins = []
+        for _ in range(rng.randint(1, 3)):
+            pkg = rng.choice([None, 'sup', 'perm', 'perm', 'sub', 'sub'])
+            names = PKGS[pkg] if pkg else IDS
+            chems = [IDS[i] for i in (base if rng.random() < 0.7 else rng.sample(range(N), rng.randint(1, 4)))]
+            chems = [c_ for c_ in chems if c_ in names]
+            if rng.random() < 0.05 and 'X_' in names:
+                chems.append('X_')                           # malformed: a chemical the receiver's package lacks
+            if rng.random() < 0.08:
+                chems = []
+            rng.shuffle(chems)
+            ins.append({'pkg': pkg, 'entries': [[c_, fl(rng.choice(FLOWS[2:]))] for c_ in chems]})
+        split = fl(rng.choice(SPLITS)) if rng.random() < 0.4 else [fl(rng.choice(SPLITS)) for _ in range(N)]
+        calls.append({'ins': ins, 'split': split})
+    return {'fn': 'mix_hist', 'calls': calls, 'top0': maybe_empty(rng), 'bot0': maybe_empty(rng)}
+
+GENS = [('mix_hist', gen_mix_hist, 10), ('binary', gen_binary, 4), ('rr', gen_rr, 4), ('clip', gen_clip, 6), ('mix_split', gen_mix_split, 8), ('moisture', gen_moisture, 12),
         ('mix_moisture', gen_mix_moisture, 4),
         ('partition', gen_partition, 16), ('partition_real', lambda r: gen_partition(r, real=True), 8),
         ('phase_fraction', lambda r: gen_partition(r, real=r.random() < 0.4, fn='phase_fraction'), 4),
@@ -597,6 +633,28 @@ def mkmulti(phases, rows):
     for p, r in zip(phases, rows):
         ms.imol[p] = np.array(r, float)
     return ms
+
+def entered(v, order, phase='l', pkg=None):
+    """a Stream holding the flows v (main package's order) whose non-zero flows were entered one by one in the
+    given order of chemical names (None: by one array assignment)"""
+    if order is None:
+        return mkstream(to_pkg(v, pkg), phase, pkg=pkg)
+    s = mkstream([0.] * (len(PKGS[pkg]) if pkg else N), phase, pkg=pkg)
+    for name in order:
+        s.imol[name] = v[IDS.index(name)]
+    return s
+
+def from_pkg(v, pkg):
+    """flows of a stream of another package in the main package's order, and the total of chemicals the main one lacks"""
+    if not pkg:
+        return list(v), 0.
+    names = PKGS[pkg]
+    return [v[names.index(n_)] if n_ in names else 0. for n_ in IDS], sum(abs(x) for n_, x in zip(names, v) if n_ not in IDS)
+
+def shuffled_names(rng, v):
+    names = [IDS[i] for i in range(N) if v[i]]
+    rng.shuffle(names)
+    return names
 
 def to_pkg(v, pkg):
     """flows given in the main package's order, in the order of another package (extra chemicals: 0)"""
@@ -778,7 +836,8 @@ def run_impl(case):
         c = Catch().run(lambda: S.handle_infeasible_flow_rates(mol, mx, case['strict']))
         return {'arr': mol.tolist(), 'err': c.err, 'warns': c.warns, 'max_after': mx.tolist()}
     if fn == 'mix_split' and case.get('top_phases'):
-        ins = [mkstream(to_pkg(v, pk), ph, pkg=pk) for v, ph, pk in zip(case['ins'], case['in_phases'], case['in_pkgs'])]
+        orders = case.get('in_orders') or [None] * len(case['ins'])
+        ins = [entered(v, o_, ph, pk) for v, o_, ph, pk in zip(case['ins'], orders, case['in_phases'], case['in_pkgs'])]
         top = mkmulti(case['top_phases'], [case['top0'][p] for p in case['top_phases']])
         bot = mkstream(case['bot0'])
         split = case['split'] if isinstance(case['split'], float) else np.array(case['split'], float)
@@ -833,6 +892,12 @@ def run_impl(case):
                 'phases': [str(top.phase), str(bot.phase)]}
     if fn == 'phase_split':
         feed = mkmulti(case['phases'], case['rows']) if case['multi'] else mkstream(case['rows'][0], case['phases'])
+        for p, r, o_ in zip(case['phases'], case['rows'], case.get('row_orders') or []):
+            if o_ is not None:          # enter the flows of this phase one by one
+                feed.imol[p] = 0.
+                for name in o_:
+                    feed.imol[p, name] = r[IDS.index(name)]
+        out_pkgs = case.get('out_pkgs') or [None] * len(case['outs0'])
         order = [str(p) for p in feed.phases]
         rows_in_order = [row(feed, p) for p in order] if case['multi'] else [arr(feed)]
         held = []
@@ -848,10 +913,11 @@ def run_impl(case):
                         'out_phases': []}
         order = [str(p) for p in feed.phases]
         rows_in_order = [row(feed, p) for p in order] if case['multi'] else [arr(feed)]     # read through feed.imol
-        outs = [mkstream(v) for v in case['outs0']]
+        outs = [mkstream(to_pkg(v, pk), pkg=pk) for v, pk in zip(case['outs0'], out_pkgs)]
         c = Catch().run(lambda: S.phase_split(feed, outs))
-        return {'order': order, 'rows': rows_in_order, 'outs': [arr(o) for o in outs], 'err': c.err,
-                'out_phases': [str(o.phase) for o in outs]}
+        back = [from_pkg(arr(o), pk) for o, pk in zip(outs, out_pkgs)]          # by chemical, in the main package's order
+        return {'order': order, 'rows': rows_in_order, 'outs': [b_[0] for b_ in back], 'err': c.err,
+                'extra': sum(b_[1] for b_ in back), 'out_phases': [str(o.phase) for o in outs]}
     if fn == 'splits':
         a = mkstream(case['a'])
         b = mkstream(case['b']) if case['b'] is not None else None
@@ -868,6 +934,24 @@ def run_impl(case):
             c = Catch().run(lambda: S.material_balance(ids, vin, cin, cout, case['is_exact'], case['balance']))
         return {'vin': [arr(s) for s in vin], 'err': c.err, 'calls': rec.calls,
                 'const_kept': [arr(s) for s in cin + cout] == case['cin'] + case['cout']}
+    if fn == 'mix_hist':
+        for th in [e['thermo']] + list(e['pkgs'].values()):
+            th.chemicals._index_cache.clear()             # the cache is state: every case starts from an empty one
+        top = mkstream(case['top0']); bot = mkstream(case['bot0'])
+        res_calls = []
+        for call in case['calls']:
+            ins = []
+            for inl in call['ins']:
+                s_ = tmo.Stream(None, thermo=e['pkgs'][inl['pkg']] if inl['pkg'] else None)
+                for name, val in inl['entries']:
+                    s_.imol[name] = val                      # entered one by one: fixes the insertion order
+                ins.append(s_)
+            snap = [[arr(s_), [int(k) for k in s_.mol.nonzero_keys()]] for s_ in ins]
+            split = call['split'] if isinstance(call['split'], float) else np.array(call['split'], float)
+            c = Catch().run(lambda: S.mix_and_split(ins, top, bot, split))
+            res_calls.append({'ins': snap, 'top': arr(top), 'bot': arr(bot), 'err': c.err,
+                              'ins_kept': [arr(s_) for s_ in ins] == [x[0] for x in snap]})
+        return {'calls': res_calls, 'err': None}
     if fn == 'vle_real':
         th = we_thermo()
         feed = tmo.Stream(None, thermo=th); feed.mol[:] = np.array(case['flows'], float)
@@ -1022,7 +1106,7 @@ def coq_case(case, out):
         exp = f'(Err {cerr(out["err"])})' if out['err'] else f'(Ok {clist(out["outs"], qlist)})'
         ok = True
         if out['err'] is None:
-            ok = out['out_phases'] == out['order']          # each phase in its own outlet, labelled
+            ok = out['out_phases'] == out['order'] and not out.get('extra')     # each phase in its own outlet, labelled
         else:
             ok = out['outs'] == case['outs0']               # nothing written
         if case['multi']:
@@ -1037,6 +1121,17 @@ def coq_case(case, out):
         exp = f'(Err {cerr(out["err"])})' if out['err'] else f'(Ok {qlist(out["val"])})'
         return (f'(resv_approxb (chemical_splits {cbool(out["heur"])} {qlist(case["a"])} {cvopt(case["b"])} '
                 f'{cvopt(case["mixed"])}) {exp} && {cbool(out["a_after"] == case["a"])})')
+    if fn == 'mix_hist':
+        gid = lambda pkg: clist([GLOBAL_IDS.index(n_) for n_ in (PKGS[pkg] if pkg else IDS)], cnat)
+        calls = []
+        for call, oc in zip(case['calls'], out['calls']):
+            fins = [f'(mkFI {"None" if inl["pkg"] is None else "(Some " + gid(inl["pkg"]) + ")"} {qlist(flows_)} {idx(order)})'
+                    for inl, (flows_, order) in zip(call['ins'], oc['ins'])]
+            calls.append(f'({clist(fins)}, {qlist(split_vec(call["split"]))})')
+        exp = clist([f'({qlist(oc["top"])}, {qlist(oc["bot"])}, {coerr(oc["err"])})' for oc in out['calls']])
+        kept = all(oc['ins_kept'] for oc in out['calls'])
+        return (f'(list_eqb call_eqb (run_calls {cnat(N)} {gid(None)} (mkPK {qlist(case["top0"])} {qlist(case["bot0"])} []) '
+                f'{clist(calls)}) {exp} && {cbool(kept)})')
     if fn == 'vle_real':
         if out['err']:
             return cbool(out['err'] == 'InfeasibleRegion' and out['feed_after'] == case['flows'])
@@ -1093,6 +1188,8 @@ def nontrivial(case, out):
         return out['err'] == 'InfeasibleRegion'
     if fn in ('clip', 'binary', 'rr', 'vle_real'):
         return True
+    if fn == 'mix_hist':
+        return any(any(oc['top']) or any(oc['bot']) for oc in out['calls'])
     if fn == 'mix_split' and case.get('top_phases'):
         return any(any(r) for r in out['top'] + out['bot'])
     if fn in ('mix_split', 'partition', 'lle', 'vle'):
@@ -1112,6 +1209,19 @@ def nontrivial(case, out):
 def classify(case, out):
     fn = case['fn']
     ks = ['fn:' + fn, 'outcome:' + (out.get('err') or 'ok')]
+    if fn == 'mix_hist':
+        ks.append(f'calls:{len(case["calls"])}')
+        seen_sets = {}
+        for call in case['calls']:
+            for inl in call['ins']:
+                if inl['pkg'] and inl['entries']:
+                    names = tuple(n_ for n_, _ in inl['entries'])
+                    prev = seen_sets.setdefault(frozenset(names), names)
+                    if prev != names:
+                        ks.append('same-chemicals-other-order')
+        for oc in out.get('calls', []):
+            ks.append('call:' + (oc['err'] or 'ok'))
+        return ks
     if fn == 'vle_real':
         ks.append('spec:' + '+'.join(sorted(case['spec'])))
     if fn in ('partition', 'phase_fraction'):
@@ -1135,6 +1245,8 @@ def classify(case, out):
         ks.append('eq_stub:' + case.get('eq_mode', 'abs'))
         if case.get('ms0'):
             ks.append('multi_stream:reused')
+    if fn == 'phase_split' and any(case.get('out_pkgs') or []):
+        ks.append('outlets:other-package')
     if fn == 'phase_split' and case.get('hist'):
         ks.append('history:' + '+'.join(sorted({o[0] for o in case['hist']})))
     if fn == 'lle':
@@ -1174,6 +1286,27 @@ def oracle(case):
         return oracle_real_eq(case)
     out = run_impl(case)
     err = out.get('err')
+    if fn == 'mix_hist':
+        for k, (call, oc) in enumerate(zip(case['calls'], out['calls'])):
+            mixed = [0.] * N; foreign = False
+            for inl in call['ins']:
+                for name, val in inl['entries']:
+                    if name == 'X_': foreign = True
+                    else: mixed[IDS.index(name)] += val
+            where = f'call {k + 1} of {len(case["calls"])} (inlet packages {[i_["pkg"] for i_ in call["ins"]]}, entry orders {[[n_ for n_, _ in i_["entries"]] for i_ in call["ins"]]})'
+            if oc['err']:
+                if foreign and oc['err'] == 'UndefinedChemicalAlias':
+                    break          # reported: the receiver's package lacks a chemical; later calls start from that state
+                return f'mix_and_split: raised {oc["err"]} in {where}'
+            if foreign:
+                return f'mix_and_split: a chemical the outlets cannot hold was dropped without an error in {where}'
+            sp = split_vec(call['split'])
+            if not close(vadd(oc['top'], oc['bot']), mixed):
+                return (f'mix_and_split: per chemical {IDS}: inlets {mixed} but outlets '
+                        f'{vadd(oc["top"], oc["bot"])} in {where}')
+            if not close(oc['top'], [s_ * m_ for s_, m_ in zip(sp, mixed)]):
+                return f'mix_and_split: top outlet {oc["top"]} is not split * mixed {mixed} in {where}'
+        return None
     if fn == 'vle_real':
         if err:
             return None if err == 'InfeasibleRegion' else f'vle (real flash, {case["spec"]}): raised {err}'
@@ -1396,8 +1529,12 @@ def oracle(case):
             return None if err == 'RuntimeError' else f'phase_split: {err} for a wrong number of outlets'
         if err:
             return f'phase_split: raised {err}'
+        if out.get('extra'):
+            return f'phase_split: an outlet of another package holds {out["extra"]} of a chemical the feed does not have'
         if out['outs'] != out['rows'] or out['out_phases'] != out['order']:
             hist = f' after the history {case["hist"]}' if case.get('hist') else ''
+            if case.get('out_pkgs'):
+                hist += f' (outlet packages {case["out_pkgs"]}, entry orders of the feed rows {case.get("row_orders")})'
             return (f'phase_split: outlets {out["outs"]} ({out["out_phases"]}) are not the phases of the feed '
                     f'{out["rows"]} ({out["order"]}){hist}')
         return None
@@ -1494,6 +1631,11 @@ CORPUS = [   # minimised inputs of the defects found while building this check (
      'bot0': [0., 5., 0., 0., 1., 0., 0.], 'pkg': 'perm'},
     # real flash, vapour composition specified 1e-6 above the feed's: the lever-rule fraction is clamped to 1 (defect repaired by /repo commit dd55412)
     {'fn': 'vle_real', 'flows': [20., 20.], 'spec': {'y': [0.500001, 0.499999], 'P': 101325.}, 'ms': True},
+    # two inlets of another package carrying the same chemicals, entered in different orders (receiver's index cache)
+    {'fn': 'mix_hist', 'top0': Z6, 'bot0': Z6, 'calls': [
+        {'ins': [{'pkg': 'perm', 'entries': [['A_', 5.], ['B_', 7.], ['C_', 11.]]}], 'split': 0.5},
+        {'ins': [{'pkg': 'perm', 'entries': [['C_', 1.], ['A_', 2.], ['B_', 4.]]},
+                 {'pkg': 'sub', 'entries': [['B_', 8.], ['C_', 16.], ['A_', 32.]]}], 'split': [0.5, 1., 0.25, 0., 1., 1.]}]},
     # MultiStream top outlet, an inlet of another package in a phase the top only owns as its other-case twin
     {'fn': 'mix_split', 'ins': [[1., 2., 0., 0., 0., 0.], [0., 1., 4., 0., 0., 0.]], 'split': 0.5, 'alias': None, 'pkg': None,
      'top_phases': 'gl', 'in_phases': ['l', 'L'], 'in_pkgs': [None, 'perm'], 'top0': {'g': Z6, 'l': Z6}, 'bot0': Z6},
